@@ -569,10 +569,10 @@ impl<'a> Printer<'a> {
     pub fn tail(&mut self, stmts: &[Stmt], t: &Expr) {
         let ts = self.expr(t);
         let after_block = matches!(stmts.last(), Some(Stmt::If(..) | Stmt::While { .. } | Stmt::RevertIf(..)));
-        // a bare `ref mut` parameter as the value of an `if` branch / match arm yields its
-        // address (listed finding C01 `ref-mut-parameter-as-branch-value-yields-address`, with a
-        // fixed witness); generated programs read it through a let binding instead
-        let bare_refmut = matches!(&*t.k, EK::Var(n) if self.refmut.contains(n));
+        // (a bare `ref mut` parameter as the value of an `if` branch / match arm used to yield its
+        // address - finding C01 `ref-mut-parameter-as-branch-value-yields-address`, repaired;
+        // the shape is generated as it is again)
+        let bare_refmut = false && matches!(&*t.k, EK::Var(n) if self.refmut.contains(n));
         if bare_refmut || (after_block && (ts.starts_with('[') || ts.starts_with('('))) {
             let tn = self.tn(&t.ty);
             self.line(&format!("let tail_v: {tn} = {ts};"));
